@@ -145,6 +145,22 @@ package http
 //@   ensures* catchall.frame: forall k String :: (forall q String, n String :: !(pattern == q + "/{*" + n + "}" && isWildName(n) && !contains(q, "/{*") && k == method + "::" + q + "/*")) && wildCount(pattern) == 2 ==> k == method + "::" + wildRepl(pattern, "/*") || (inMap(m.wildcards, k) == old(inMap(m.wildcards, k)) && m.wildcards[k] == old(m.wildcards[k]))
 //@   ensures* plain: !contains(pattern, "/{*") ==> select(select(chiReg, rt), method + " " + pattern) && (forall k String :: inMap(m.wildcards, k) == old(inMap(m.wildcards, k)) && m.wildcards[k] == old(m.wildcards[k]))
 //@   ensures* unlocked: select(lockHeld, addr(m.mu)) == 0
+//   -- representation invariant of the muxer: once the pending middleware list has been flushed (nil) goa's
+//   -- not-found handler is installed; after the first Handle it always is
+//@   requires m.middlewares == nil ==> select(chiNotFound, m.Router)
+//@   ensures* notfound.installed: select(chiNotFound, rt) && m.middlewares == nil
+
+//@ func NewMuxer
+//@   property C16
+//@   ensures* fresh.mux: typeIs(result, *mux) && result.(*mux) != nil && result.(*mux).middlewares != nil && result.(*mux).wildcards != nil && len(result.(*mux).wildcards) == 0
+
+//@ func (*mux).Use
+//@   property C16 C20
+//@   requires m != nil && m.Router != nil
+//@   requires select(lockHeld, addr(m.mu)) == 0
+//@   requires m.middlewares == nil ==> select(chiNotFound, m.Router)
+//@   ensures* invariant: (m.middlewares == nil) == old(m.middlewares == nil) && (m.middlewares == nil ==> select(chiNotFound, m.Router))
+//@   ensures* unlocked: select(lockHeld, addr(m.mu)) == 0
 //@ lemma c16_resolve_inverts_rewrite property C16: forall q String, n String :: substr(q + "/*", 0, len(q + "/*") - 2) + "/{*" + n + "}" == q + "/{*" + n + "}"
 
 // chi (assumed, audited): when the request carries an escaped path chi matches on it and the
